@@ -6,5 +6,6 @@ CONSTANTS
   KMaxLinks = 40
   EmitCases = FALSE
   RefuseDotNames = FALSE
+  RefuseOPathCreate = TRUE
 INVARIANTS TypeOK OutsideFrame ResultInside
 CHECK_DEADLOCK FALSE
